@@ -174,3 +174,15 @@ M("c15-flush-sorted", "C15", "break", (S, "        self.callback(self.data, *sel
 M("c15-bypass-falls-through", "C15", "break", (S, "            self.sd.send_sd([entry], remote=remote)\n            return", "            self.sd.send_sd([entry], remote=remote)"))
 M("c15-instance-bypasses-queue", "C15", "break", (S, "        self.announcer.queue_send(entry, remote=remote)", "        self.announcer.sd.send_sd([entry], remote=remote)"))
 M("c15-timer-doubled", "C15", "break", (S, "            timeout, self._handle_timeout\n        )", "            timeout * 2, self._handle_timeout\n        )"))
+
+# ---------------------------------------------------------------- C16
+M("c16-reply-on-multicast", "C16", "break", (V, "        if multicast:\n            warnings.warn(", "        if False:\n            warnings.warn("))
+M("c16-response-for-no-return", "C16", "break", (V, "            and someip_message.message_type == header.SOMEIPMessageType.REQUEST\n        ):", "        ):"))
+M("c16-fall-through-after-error", "C16", "break", (V, "                someip_message, addr, header.SOMEIPReturnCode.E_UNKNOWN_METHOD\n            )\n            return", "                someip_message, addr, header.SOMEIPReturnCode.E_UNKNOWN_METHOD\n            )"))
+M("c16-wrong-return-code", "C16", "break", (V, "                someip_message, addr, header.SOMEIPReturnCode.E_WRONG_INTERFACE_VERSION", "                someip_message, addr, header.SOMEIPReturnCode.E_WRONG_PROTOCOL_VERSION"))
+M("c16-return-code-check-dropped", "C16", "break", (V, "        if someip_message.return_code != header.SOMEIPReturnCode.E_OK:", "        if False:"))
+M("c16-error-to-default-addr", "C16", "break", (V, "        self.send(resp.build(), addr)\n\n    def send_positive_response(", "        self.send(resp.build())\n\n    def send_positive_response("))
+M("c16-error-keeps-payload", "C16", "break", (V, '            payload=b"",\n        )', "        )"))
+M("c16-swap-checks", "C16", "break",
+  (V, "        if someip_message.service_id != self.service_id:\n            self.log.warning(\"received message for unknown service: %r\", someip_message)\n            self.send_error_response(\n                someip_message, addr, header.SOMEIPReturnCode.E_UNKNOWN_SERVICE\n            )\n            return\n", ""),
+  (V, "        method = self.methods.get(someip_message.method_id)\n", "        if someip_message.service_id != self.service_id:\n            self.send_error_response(\n                someip_message, addr, header.SOMEIPReturnCode.E_UNKNOWN_SERVICE\n            )\n            return\n        method = self.methods.get(someip_message.method_id)\n"))
